@@ -694,9 +694,18 @@ def analyze(ctx, want):
             ok = len(c) == 1 and (arg is None or S.vstr(c[0][3][1]) == arg) and (recv in S.vstr(c[0][3][0]) or S.vstr(rv_).lstrip("&*") == recv)
             if ok and not re.search(r"set_offset$|with_offset$", fn.name):
                 ok = p.end[1] == c[0][4]
+            if ok:
+                # a forwarding wrapper does nothing else: no field of the wrapper is written and no other method of the
+                # implementation is called (a wrapper that remembers a peek, latches exhaustion or switches the mode on the side
+                # makes the public iterator behave differently from the implementation the other rules analyse)
+                extra_w = [field_path(w[1]) for w in heap_writes(p) if w[0] == ("sym", "self") and not field_path(w[1]).startswith(recv.split(".", 1)[1])]
+                extra_c = [M.short_name(e_[2]) for e_ in p.events if e_[0] == "call" and e_ is not c[0] and re.search(r"FindMatchesImpl::<..>::|ScannerImpl::|^<I as position::PositionProvider>::|^<I as .*Iterator>::", e_[2])
+                           and not re.search(r"FindMatchesImpl::<..>::with_offset$", e_[2]) and not (len(e_) > 8 and e_[8] == "inlined")]
+                if extra_w or extra_c:
+                    ok = False
             if not ok:
                 okall = False
-                det = "calls %s" % [(M.short_name(x[2]), [S.vstr(a) for a in x[3]]) for x in p.calls(r".")][:4]
+                det = "calls %s; writes %s" % ([(M.short_name(x[2]), [S.vstr(a) for a in x[3]]) for x in p.calls(r".")][:4], [field_path(w[1]) for w in heap_writes(p) if w[0] == ("sym", "self")][:3])
         ob("C10.a", "public-forward:" + M.short_name(fn.name), okall, det or "forwards %s unchanged to the implementation" % (arg or "the call"), fn.loc())
 
     # =================================================================== advance_to (kinds)
